@@ -34,6 +34,18 @@ fn write_side(ctx: &mut Ctx, env: &Env) {
                 c.outcome(t.outcome_hash());
                 c.nontrivial();
                 c05::check_stream(c, &row.cfg, &body, &t.out, None, Some(&row.gz))?;
+                // the same with the stream duplicated (deflateCopy) after the first / second call and continued on the
+                // copy: a copy taken while a field is only partly written must carry on exactly there
+                if t.calls.len() > 1 {
+                    for k in [1usize, 2] {
+                        c.exec();
+                        let exk = DExtra { gz: Some(&row.gz), copy_after_call: k, ..Default::default() };
+                        let tk = run_deflate::<Rs>(&row.cfg, &body, &row.sched, env, &exk, None)?;
+                        if tk.out != t.out {
+                            return Err(format!("continuing on a deflateCopy taken after call {k} writes a different stream ({} bytes, {} without the copy, first difference at {:?})", tk.out.len(), t.out.len(), tk.out.iter().zip(&t.out).position(|(a, b)| a != b)));
+                        }
+                    }
+                }
                 Ok(())
             },
         );
